@@ -243,7 +243,16 @@ func (v *Verifier) calleeName(c *ssa.CallCommon) string {
 func (v *Verifier) contractForCall(c *ssa.CallCommon) (*FuncContract, *ssa.Function) {
 	name := v.calleeName(c)
 	if strings.HasPrefix(name, "functype:") {
-		return v.ct.FuncType[strings.TrimPrefix(name, "functype:")], nil
+		tn := strings.TrimPrefix(name, "functype:")
+		if ft, ok := v.ct.FuncType[tn]; ok {
+			return ft, nil
+		}
+		for _, ft := range v.ct.FuncType {
+			if ft.Signature != "" && ft.Signature == tn {
+				return ft, nil
+			}
+		}
+		return nil, nil
 	}
 	callee := c.StaticCallee()
 	if fc, ok := v.ct.Funcs[name]; ok {
